@@ -5,7 +5,7 @@ from __future__ import annotations
 import ast
 
 from ..core import rule
-from ..dataflow import DefUse
+from ..dataflow import DefUse, origins
 from ..program import AnalysisError, dotted, src
 from ..core import walk_local  # inline-aware
 from .common import handler_catching, handler_body_nodes, raise_ctor_args, translation, where
@@ -16,22 +16,34 @@ IMPORTERS = [("xandikos.store.git.GitStore", "import_one"), ("xandikos.store.vdi
 OPENERS = ("open_by_extension", "open_by_content_type")
 
 
+def _file_keys(du, node, e):
+    """Identity of the File object(s) *e* denotes at *node*: the open_by_*(data, ...) call sites it originates from
+    (None if some origin is not such a call on the uploaded `data`)."""
+    keys = set()
+    os_ = origins(du, node, e)
+    if not os_:
+        return None
+    for o in os_:
+        v = o.leaf
+        if o.kind != "expr" or o.path or not (isinstance(v, ast.Call) and (dotted(v.func) or "").split(".")[-1] in OPENERS and v.args):
+            return None
+        a0 = origins(du, o.node, v.args[0])
+        if not (a0 and all(x.kind == "param" and x.name == "data" and not x.path for x in a0)):
+            return None
+        keys.add(id(v))
+    return keys
+
+
 def file_var_of_validate(cfg, du):
-    """[(node, var)] for every `<var>.validate()` call whose var is built by open_by_* from the `data` parameter."""
+    """[(node, text, ok, keys)] for every `<obj>.validate()` call; ok iff obj is built by open_by_* from the `data` parameter."""
     out = []
     for n in cfg.stmt_nodes():
         for c in n.calls():
-            if isinstance(c.func, ast.Attribute) and c.func.attr == "validate" and isinstance(c.func.value, ast.Name):
-                var = c.func.value.id
-                defs = du.reaching(n, var)
-                ok = bool(defs)
-                for d in defs:
-                    v = d.value
-                    if not (isinstance(v, ast.Call) and (dotted(v.func) or "").split(".")[-1] in OPENERS and v.args
-                            and isinstance(v.args[0], ast.Name) and v.args[0].id == "data"
-                            and all(dd.kind == "param" for dd in du.reaching(d.node, "data"))):
-                        ok = False
-                out.append((n, var, ok))
+            if isinstance(c.func, ast.Attribute) and c.func.attr == "validate" and not c.args:
+                keys = _file_keys(du, n, c.func.value)
+                if keys is None and not isinstance(c.func.value, (ast.Name, ast.Attribute)):
+                    continue
+                out.append((n, src(c.func.value), keys is not None, keys or set()))
     return out
 
 
@@ -49,8 +61,9 @@ def v1(ctx):
         muts = [n for n in cfg.stmt_nodes() if F.node_mutations(fi, n)]
         if not muts:
             raise AnalysisError("%s.%s: no mutation" % (cq, nm))
-        good = [n for n, var, ok in vals if ok]
-        fvars = {var for n, var, ok in vals if ok}
+        good = [n for n, var, ok, _k in vals if ok]
+        fvars = {var for n, var, ok, _k in vals if ok}
+        fkeys = set().union(*[k for n, var, ok, k in vals if ok]) if good else set()
         obs.append(ctx.ob(bool(good), fi.qualname, fi.where, "validates the File built from `data`",
                           "`%s.validate()` is called on open_by_*(data, ...)" % "/".join(sorted(fvars)),
                           "%s no longer calls validate() on the File object built from the uploaded `data`" % fi.short))
@@ -69,12 +82,12 @@ def v1(ctx):
                     for k in c.keywords:
                         if k.arg == "data":
                             arg = k.value
-                    stored_ok = _is_normalized_of(du, n, arg, fvars)
+                    stored_ok = _is_normalized_of(du, n, arg, fkeys)
                     obs.append(ctx.ob(stored_ok, fi.qualname, where(fi, n), "_import_one stores normalized()",
                                       "data argument is `%s`" % (src(arg) if arg is not None else "?"),
                                       "_import_one is given `%s`, not the validated object's normalized() form" % (src(arg) if arg is not None else "?")))
                 if isinstance(c.func, ast.Attribute) and c.func.attr in ("write", "writelines") and c.args:
-                    stored_ok = _is_normalized_of(du, n, c.args[0], fvars)
+                    stored_ok = _is_normalized_of(du, n, c.args[0], fkeys)
                     obs.append(ctx.ob(stored_ok, fi.qualname, where(fi, n), "file write stores normalized()",
                                       "written value `%s` iterates normalized()" % src(c.args[0]),
                                       "`%s` writes something other than the validated object's normalized() form" % node_desc(n)))
@@ -83,17 +96,21 @@ def v1(ctx):
     return obs
 
 
-def _is_normalized_of(du, n, e, fvars, depth=0) -> bool:
-    if e is None or depth > 3:
+def _is_normalized_of(du, n, e, fkeys, depth=0) -> bool:
+    """*e* is `<validated File>.normalized()` (through local names / an iteration over it)."""
+    if e is None or not fkeys:
         return False
-    if isinstance(e, ast.Call) and isinstance(e.func, ast.Attribute) and e.func.attr == "normalized" \
-            and isinstance(e.func.value, ast.Name) and e.func.value.id in fvars:
-        return True
-    if isinstance(e, ast.Name):
-        defs = du.reaching(n, e.id)
-        return bool(defs) and all(d.value is not None and d.kind in ("assign", "for") and
-                                  _is_normalized_of(du, d.node, d.value, fvars, depth + 1) for d in defs)
-    return False
+    os_ = origins(du, n, e)
+    if not os_:
+        return False
+    for o in os_:
+        v = o.leaf
+        if o.kind not in ("expr", "elem") or o.path or not (isinstance(v, ast.Call) and isinstance(v.func, ast.Attribute) and v.func.attr == "normalized"):
+            return False
+        k = _file_keys(du, o.node, v.func.value)
+        if not k or not k <= fkeys:
+            return False
+    return True
 
 
 @rule("C14", "V2", floor=7, kind="S",
